@@ -223,7 +223,11 @@ func (s *Server) startSession(id int, conn net.Conn, logger zerolog.Logger) {
 				case "RSET":
 					// Reset session
 					ssn.logger.Debug().Msgf("Resetting session state on RSET request")
-					ssn.reset()
+					if ssn.state != GREET {
+						// Before HELO/EHLO there is nothing to reset, and RSET must not
+						// stand in for the greeting.
+						ssn.reset()
+					}
 					ssn.send("250 Session reset")
 					continue
 				case "QUIT":
